@@ -98,6 +98,9 @@ type Sim struct {
 	SweepBefore int
 	// Frozen, if set, withholds tasks from scheduling (a stalled / starved goroutine)
 	Frozen func(name string) bool
+	// Slow, if set, returns N > 1 for a slow task: it is eligible only on every N-th
+	// scheduler step as long as some other task can run (a slow consumer / slow thread)
+	Slow func(name string) int
 
 	// stubs
 	pipes  map[string]*SimPipe
@@ -493,7 +496,7 @@ func Sleep(d time.Duration, site string) {
 func (s *Sim) Ready() []*Task {
 	s.lock()
 	defer s.unlock()
-	var r []*Task
+	var r, slow []*Task
 	for _, t := range s.tasks {
 		if !t.parked || t.lockBlocked && t.lockEpoch == s.unlockEpoch {
 			continue
@@ -501,7 +504,16 @@ func (s *Sim) Ready() []*Task {
 		if s.Frozen != nil && s.Frozen(t.Name) {
 			continue
 		}
+		if s.Slow != nil {
+			if n := s.Slow(t.Name); n > 1 && s.Steps%n != 0 {
+				slow = append(slow, t)
+				continue
+			}
+		}
 		r = append(r, t)
+	}
+	if len(r) == 0 {
+		r = slow
 	}
 	sort.Slice(r, func(i, j int) bool { return r[i].Name < r[j].Name })
 	return r
